@@ -569,7 +569,11 @@ def gen_program(rng):
 # exhaustive enumeration (seed independent)
 # ----------------------------------------------------------------------------
 ENUM_ATOMS = [('expr', ('call', 1)), ('expr', ('id', 1)), ('ret', ('lit',)), ('throw', ('lit',)), ('throw', ('id', 1))]
-ENUM_CONDS = [('T',), ('O', ('id', 2)), ('S', ('call', 1), True)]
+ENUM_CONDS_BASIC = [('T',), ('O', ('id', 2))]
+ENUM_CONDS_RICH = ENUM_CONDS_BASIC + [('S', ('call', 1), True)]
+# the constructs added later (getter statements, loop heads, throwing constant tests) are enumerated for programs of up
+# to 4 statements; the 5-statement layer of the thorough tier keeps the basic forms (it would not fit the time budget)
+ENUM_RICH = [True]
 
 
 def enum_stmt(n, brk, cont, labels, loop_labels, mine=()):
@@ -594,7 +598,7 @@ def enum_stmt(n, brk, cont, labels, loop_labels, mine=()):
     for b in enum_stmt(m, brk, cont, labels, loop_labels):
         yield ('if', ('O', ('id', 2)), b)
     for b in enum_stmt(m, True, True, labels, ll):
-        for c in ENUM_CONDS:
+        for c in (ENUM_CONDS_RICH if ENUM_RICH[0] else ENUM_CONDS_BASIC):
             yield ('while', c, b)
             yield ('dowhile', b, c)
         yield ('dowhile', b, ('F',))
@@ -603,9 +607,9 @@ def enum_stmt(n, brk, cont, labels, loop_labels, mine=()):
     for b in enum_stmt(m, brk, cont, (lab,) + tuple(labels), loop_labels, mine=(lab,) + tuple(mine)):
         yield ('label', lab, b)
     # function-likes in expression position: a getter statement; a loop head with a getter (body of the head: i nodes)
-    for l in enum_list(m, False, False, (), ()):
+    for l in (enum_list(m, False, False, (), ()) if ENUM_RICH[0] else ()):
         yield ('gstmt', l)
-    for i in range(0, m):
+    for i in (range(0, m) if ENUM_RICH[0] else ()):
         for hb in enum_list(i, False, False, (), ()):
             for b in enum_stmt(m - i, True, True, labels, ll):
                 yield ('forhead', True, hb, b)
@@ -642,8 +646,10 @@ def enum_list(n, brk, cont, labels, loop_labels):
 
 def enum_programs(max_size):
     for n in range(1, max_size + 1):
+        ENUM_RICH[0] = n <= 4
         for body in enum_list(n, False, False, (), ()):
             yield ('fn', body)
+    ENUM_RICH[0] = True
 
 
 # ----------------------------------------------------------------------------
